@@ -131,6 +131,11 @@ func runMutant(p rules.Property, prop, repo, name string) (code int) {
 			m = &rules.Mutants[i]
 		}
 	}
+	for i := range rules.SilentMutants {
+		if rules.SilentMutants[i].Prop == prop && rules.SilentMutants[i].Name == name {
+			m = &rules.SilentMutants[i]
+		}
+	}
 	if m == nil {
 		fmt.Printf("MUTANT-UNKNOWN %s/%s\n", prop, name)
 		return 2
@@ -156,21 +161,36 @@ func runMutant(p rules.Property, prop, repo, name string) (code int) {
 	}
 	ctx.Prop, ctx.Tier = prop, "quick"
 	p.Run(ctx)
-	n := 0
+	n, und := 0, 0
 	for _, o := range ctx.Obls {
 		if o.Verdict == core.Violated {
 			n++
 			fmt.Printf("MUTANT-VIOLATION %s at %s: %s\n", o.Key, o.Pos, o.Msg)
 		}
+		if o.Verdict == core.Undecided {
+			und++
+			fmt.Printf("MUTANT-UNDECIDED %s at %s: %s\n", o.Key, o.Pos, o.Msg)
+		}
+	}
+	for _, f := range ctx.Floors {
+		if f.Got < f.Min {
+			und++
+			fmt.Printf("MUTANT-UNDECIDED floor %s %s %d < %d\n", f.Rule, f.What, f.Got, f.Min)
+		}
 	}
 	if n > 0 {
 		return 1
+	}
+	if und > 0 {
+		return 5
 	}
 	return 0
 }
 
 func selfTest(prop, repo string) ([]string, bool) {
 	ms := rules.MutantsFor(prop)
+	nBreaking := len(ms)
+	ms = append(ms, rules.SilentFor(prop)...)
 	out := make([]string, len(ms))
 	okAll := true
 	var mu sync.Mutex
@@ -192,6 +212,17 @@ func selfTest(prop, repo string) ([]string, bool) {
 			code := cmd.ProcessState.ExitCode()
 			status := ""
 			switch {
+			case i >= nBreaking && code == 0:
+				status = "silent (as required: behaviour-preserving rewrite)"
+			case i >= nBreaking && code != 3 && code != 4:
+				first := ""
+				for _, l := range strings.Split(string(b), "\n") {
+					if strings.HasPrefix(l, "MUTANT-VIOLATION ") || strings.HasPrefix(l, "MUTANT-UNDECIDED ") {
+						first = l
+						break
+					}
+				}
+				status = "MISSED: FALSE ALARM on a behaviour-preserving rewrite: " + first
 			case code == 3:
 				status = "skipped (anchor gone)"
 			case code == 4:
